@@ -833,6 +833,16 @@ func c17Gen(r *vh.Rand, tier string, n int) []c17In {
 							cfg = "ns20"
 						}
 						ins = append(ins, c17In{Cfg: cfg, K0: 1, B0: 1, Acts: rb})
+						// a kernel undo cut by a restart and then a reboot BEFORE the undo has been re-run (with and
+						// without another operation in between): the recorded finding's window entered through a restart
+						if op.K == "setk" && op.NT {
+							rc := append(append([]c17Act{}, ctx...), or, Bp, M, B)
+							ins = append(ins, c17In{Cfg: cfg, K0: 1, B0: 1, Acts: rc})
+							if cut == 1 {
+								rd := append(append([]c17Act{}, ctx...), or, sb(1), Bp, M, B)
+								ins = append(ins, c17In{Cfg: "uc20", K0: 1, B0: 1, Acts: rd})
+							}
+						}
 					}
 				}
 			}
